@@ -141,6 +141,59 @@ def many(a: int, b: int = 1, c: int = 2) -> dict[str, int]:
 	t = (a, b, c)
 	u = total([a, b, c], limit=c)
 	return {'a': a, 'b': b, 'c': len(pairs) + t[0] + u}
+
+# the remaining node classes: every class of the node model with child properties is walked at least once
+from enum import Enum
+from typing import Generic, Literal, TypeAlias, TypedDict, TypeVar
+
+T = TypeVar('T')
+Row: TypeAlias = dict[str, int]
+Rec = TypedDict('Rec', {'k': int, 'w': str})
+Mode: TypeAlias = Literal['r', 'w']
+
+class Color(Enum):
+	Red = 1
+	Blue = 1 << 2
+
+class Outer:
+	class Inner:
+		def get(self) -> int:
+			return 1
+
+	def make(self) -> 'Outer.Inner':
+		return Outer.Inner()
+
+class Box(Generic[T]):
+	def __init__(self, v: T) -> None:
+		self.v: T = v
+
+	def get(self) -> T:
+		return self.v
+
+def rest(xs: list[int], flag: bool, *more: int) -> float:
+	assert len(xs) >= 0, 'never'
+	ok = True and not flag or False
+	d = {str(x): x for x in xs if x > 0}
+	h = 2.5 * len(d)
+	m = (xs[0] << 2) ^ 3 if len(xs) > 0 else ~0
+	i: Outer.Inner = Outer().make()
+	b = Box[int](1)
+	bx: Box[int] = b
+	un: int | None = None
+	tp: tuple[int, int] = (1, 2)
+	st = tp[*sl2]
+	sl = xs[1:3]
+	sl2 = (0,)
+	n = None
+	del d['k']
+	if ok:
+		pass
+	z = total(*[xs, 1])
+	return h + m + i.get() + b.get() + len(sl) + z + Color.Red.value
+
+def gen(xs: list[int]) -> int:
+	for x in xs:
+		yield x
 '''
 
 
@@ -172,6 +225,20 @@ def _walk_modules_impl(args) -> list[dict]:
 		tr = identity_walk([entry])
 		tr['label'] = f'A:{module_path}:plain'
 		out.append(tr)
+		if module_path == 'verif_sample':
+			# vacuity guard: every concrete node class that has child properties occurs in the sample
+			import inspect
+			import rogw.tranp.syntax.node.definition as defs
+			from rogw.tranp.syntax.ast.finder import ASTFinder
+			from rogw.tranp.syntax.ast.parser import SyntaxParser
+			from rogw.tranp.syntax.node.node import Node
+			classes = {n: c for n, c in inspect.getmembers(defs, inspect.isclass) if issubclass(c, Node)}
+			concrete = {n for n, c in classes.items() if not any(issubclass(o, c) and o is not c for o in classes.values())}
+			nodes = entry._Node__nodes
+			present = {type(nodes.by(p)).__name__ for p in ASTFinder().full_pathfy(env.get(SyntaxParser)(module_path))}
+			absent = sorted(n for n in concrete - present if classes[n].prop_keys())
+			if absent:
+				raise Machinery(f'the sample program has no node of class {absent}: their child properties are never walked')
 		# (1b) ONE walker instance over two different trees (same entry paths, different shapes)
 		if module_path != 'verif_sample':
 			other = env.load('verif_sample').entrypoint
